@@ -93,6 +93,10 @@ func newEventFromUntrustedJSONV3(eventJSON []byte, roomVersion IRoomVersion) (PD
 	res.roomVersion = roomVersion.Version()
 
 	// We know the JSON must be valid here.
+	if err := checkUntrustedEventShape(eventJSON); err != nil {
+		return nil, err
+	}
+
 	eventJSON = CanonicalJSONAssumeValid(eventJSON)
 	res.eventJSON = eventJSON
 
